@@ -135,6 +135,13 @@ def _helper_cases(rng: Rng, tier):
             for frac in {hit_solver, hit_sorted}:
                 if frac < 1:
                     yield dict(kind="helper", sub="exact_fraction", A=np.diag(p).tolist(), sel=["frac", rs(frac)], spectrum=list(p))
+    # (b'') sizes around typical fast-path thresholds (200, 250, 256): symmetric PSD, a few integer components
+    for n in ([201, 251, 257, 300] if big else [rng.choice([201, 251]), 257]):
+        npr = np.random.default_rng(rng.subseed())
+        s_ = sorted([float(x) for x in rng.sample([Fraction(k, 4) for k in range(1, 40 * n)], n)], reverse=True)
+        q = _orth(npr, n)
+        A = q @ np.diag(s_) @ q.T
+        yield dict(kind="helper", sub="large", A=((A + A.T) / 2).tolist(), sel=["int", rng.randint(1, 8)], spectrum=s_)
     # (c) boundary selectors on a fixed small matrix
     for sel in _boundary_sels():
         yield dict(kind="helper", sub="boundary", A=[[2.0, 0.0, 0.0], [0.0, 5.0, 0.0], [0.0, 0.0, 3.0]], sel=sel, spectrum=[2.0, 5.0, 3.0])
@@ -198,6 +205,34 @@ def _ufpca_cases(rng: Rng, tier):
         yield case
 
 
+def _ufpca_amplitude_cases(rng: Rng, tier):
+    """Amplitude sweep (every run): data × 2^e, e = ±30, ±20 (≈ 1e-9 … 1e9), both methods."""
+    for i, e in enumerate([-30, -30, 30, -20, -20, 20]):
+        method = ["inner-product", "covariance"][i % 2]
+        n, m = rng.randint(3, 8), rng.randint(4, 10)
+        t = grid(rng, m)
+        X, dk = curves(rng, n, t, "smooth" if method == "inner-product" else None)
+        sc = Fraction(2) ** e
+        yield dict(kind="ufpca", method=method, normalize=False, sel=rng.choice([["all"], ["int", 2], ["int", 1]]),
+                   dk=f"amplitude-2^{e}", t=Svec(t), X=Smat([[x * sc for x in r] for r in X]), scale=rs(sc))
+
+
+def _ufpca_large_cases(rng: Rng, tier):
+    """Many observations (Gram route) / many grid points (covariance route) around fast-path thresholds,
+    the other dimension tiny; a few integer components; rough data so that the noise variance is positive."""
+    big = tier == "thorough"
+    for n in ([201, 251, 257, 300] if big else [rng.choice([201, 257]), 251]):
+        t = grid(rng, 3)
+        X, dk = curves(rng, n, t, "rough")
+        yield dict(kind="ufpca", method="inner-product", normalize=False, sel=["int", rng.randint(1, 5)], dk="large-n",
+                   t=Svec(t), X=Smat(X))
+    for m in ([201, 251, 257] if big else [rng.choice([201, 257])]):
+        t = grid(rng, m)
+        X, dk = curves(rng, rng.randint(3, 4), t, "rough")
+        yield dict(kind="ufpca", method="covariance", normalize=False, sel=["int", rng.randint(1, 3)], dk="large-m",
+                   t=Svec(t), X=Smat(X))
+
+
 def _mfpca_cases(rng: Rng, tier):
     N = 80 if tier == "thorough" else 6
     for k in range(N):
@@ -215,13 +250,21 @@ def _mfpca_cases(rng: Rng, tier):
     for k in range(60 if tier == "thorough" else 8):
         P = [3, 3, 4, 2][k % 4]
         comps = multi_lowrank(rng, P, rng.randint(8, 20))
-        yield dict(kind="mfpca", method="covariance", sel=rng.choice([["int", 2], ["int", 3], ["int", 4], ["frac", "9/10"]]),
-                   comps=comps, uni=[rng.choice([2, 3]) for _ in range(P)], dk=f"multi-lowrank-P{P}")
+        case = dict(kind="mfpca", method="covariance", sel=rng.choice([["int", 2], ["int", 3], ["int", 4], ["frac", "9/10"]]),
+                    comps=comps, uni=[rng.choice([2, 3]) for _ in range(P)], dk=f"multi-lowrank-P{P}")
+        if k % 2 == 1:
+            # non-orthonormal univariate bases: P-spline expansions (B ≠ I, so B·Q ≠ Q·B)
+            case["uni_method"] = "PSplines"
+            case["uni"] = [rng.choice([3, 4, 5]) for _ in range(P)]   # numbers of segments
+            case["dk"] += "-psplines"
+        yield case
 
 
 def gen_cases(rng: Rng, tier):
     yield from _helper_cases(rng, tier)
     yield from _ufpca_cases(rng, tier)
+    yield from _ufpca_amplitude_cases(rng, tier)
+    yield from _ufpca_large_cases(rng, tier)
     yield from _mfpca_cases(rng, tier)
 
 
@@ -290,8 +333,11 @@ def _fit(case, sel_py):
             mfd = _multi(case)
             if case["method"] == "covariance":
                 uni = case.get("uni") or [3] * len(case["comps"])
-                est = MFPCA(n_components=sel_py, method="covariance",
-                            univariate_expansions=[dict(method="UFPCA", n_components=k) for k in uni])
+                if case.get("uni_method") == "PSplines":
+                    exps = [dict(method="PSplines", penalty=1.0, n_segments=k) for k in uni]
+                else:
+                    exps = [dict(method="UFPCA", n_components=k) for k in uni]
+                est = MFPCA(n_components=sel_py, method="covariance", univariate_expansions=exps)
             else:
                 est = MFPCA(n_components=sel_py, method="inner-product")
             est.fit(mfd)
@@ -394,6 +440,8 @@ def run_impl(case):
                 r = C @ (w * phi) - (lam + shift) * phi
                 res.append(float(np.abs(r).max() / max(np.abs(C).max() * np.abs(w).sum() * max(np.abs(phi).max(), 1e-300), 1e-300)))
             out["pair_res"] = res
+            with np.errstate(all="ignore"):
+                out["norm2"] = [float(x) for x in ((Phi ** 2) * w).sum(axis=1)]
         else:
             out["n_obs"] = int(fd.n_obs)
     else:
@@ -442,7 +490,8 @@ def model_lines(case, impl):
         return []  # nothing captured (refactor?) -> oracle only
     sel = sel_to_model(case["sel"])
     if case["kind"] == "helper":
-        cols = ";".join(_ratvec(c) for c in impl["raw_vecs"]) if impl["raw_vecs"] else "-"
+        big = len(impl["raw_vals"]) > 64   # large matrices: values only (the vectors are checked by the oracle)
+        cols = ";".join(_ratvec(c) for c in impl["raw_vecs"]) if (impl["raw_vecs"] and not big) else "-"
         return [f"impl {sel} {_ratvec(impl['raw_vals'])} {cols}"]
     gram = case["method"] == "inner-product"
     if gram:
@@ -513,7 +562,10 @@ def compare(case, impl, model):
             ds.append(f"eigenvalues differ from clip→slice of the captured solver output: impl {impl['vals'][:6]} vs model {[float(x) for x in mv][:6]}")
         mc = [] if toks[2] == "-" else [pvec(r) for r in toks[2].split(";")]
         ic = [[F(x) for x in c] for c in (impl["vecs"] or [])]
-        if ic != mc:
+        if len(impl.get("raw_vals", [])) > 64:
+            if len(ic) != len(mv):
+                ds.append(f"{len(ic)} eigenvectors for {len(mv)} eigenvalues")
+        elif ic != mc:
             ds.append(f"eigenvectors differ from the first {len(mc)} captured columns")
     else:
         # reported eigenvalues: the helper's values (covariance route) or values / n_obs (Gram route)
@@ -609,6 +661,21 @@ def oracle(case, impl):
                 if np.abs(A @ u - lam * u).max() > 1e-8 * nrm:
                     bad("paired", f"returned pair (value {lam!r}) does not satisfy A u = value·u (residual {np.abs(A @ u - lam * u).max():.3g})")
                     break
+    # eigenfunction k is a normalised eigen-direction: ‖φ_k‖²_w = 1 (covariance route, outside repeated
+    # eigenvalues) resp. (l_k + σ²)/l_k ≥ 1 (Gram route, l_k = n λ_k) — in particular never the zero function
+    if impl.get("norm2") and case["kind"] == "ufpca":
+        spectrum = [max(x, 0.0) for x in impl.get("raw_vals", vals)]
+        if case["method"] == "inner-product":
+            spectrum = [x / max(impl.get("n_obs", 1), 1) for x in spectrum]
+        for k, nrm in enumerate(impl["norm2"]):
+            if not (vals[k] > 1e-8 * lam_max) or nrm != nrm or nrm in (float("inf"),):
+                continue
+            if sum(1 for x in spectrum if abs(x - vals[k]) <= 1e-8 * lam_max) >= 2:
+                continue  # repeated eigenvalue: C02's finding
+            want = 1.0 if case["method"] == "covariance" else (vals[k] * impl["n_obs"] + impl["noise"]) / (vals[k] * impl["n_obs"])
+            if abs(nrm - want) > 1e-6 * max(want, 1.0):
+                bad("paired", f"eigenfunction {k} (eigenvalue {vals[k]!r}) has squared norm {nrm!r}, expected {want!r}")
+                break
     if "refit_vals" in impl or "refit_error" in impl:
         a1, a2 = impl.get("refit_vals"), impl.get("fresh_vals")
         if a1 is None or a2 is None:
